@@ -104,3 +104,4 @@ double F_log2(double x) {
   return e + r;
 }
 double F_log(double x) { return F_log2(x) * 0.6931471805599453; }
+void F___cxa_pure_virtual(void) { RT_TRAP(); }
